@@ -48,7 +48,7 @@ KINDS = ['obs', 'add_atom', 'add_bond', 'del_atom', 'del_bond', 'remap', 'union'
          'tx', 'clean_stereo', 'add_atom_stereo', 'add_ct_stereo', 'invalid', 'new', 'opaque']
 BASE_W = {'obs': 10, 'add_atom': 9, 'add_bond': 12, 'del_atom': 8, 'del_bond': 9, 'remap': 5, 'union': 4, 'copy': 5,
           'sub': 5, 'drop': 1, 'flush': 1, 'tx': 12, 'clean_stereo': 1, 'add_atom_stereo': 3, 'add_ct_stereo': 3,
-          'invalid': 3, 'new': 2, 'opaque': 0}
+          'invalid': 3, 'new': 2, 'opaque': 5}
 MUTATORS = {'add_atom', 'add_bond', 'del_atom', 'del_bond', 'remap', 'union', 'tx', 'clean_stereo',
             'add_atom_stereo', 'add_ct_stereo', 'invalid', 'opaque'}
 OPAQUE = ['explicify_hydrogens', 'implicify_hydrogens', 'clean_isotopes', 'remove_coordinate_bonds', 'neutralize',
